@@ -682,9 +682,13 @@ func regexExpressionToBloomFieldExpression(expression *RegexExpression) *BloomEx
 		children := make([]BloomExpression, 0, len(expression.Children))
 		for i := range expression.Children {
 			child := regexExpressionToBloomFieldExpression(&expression.Children[i])
-			if child != nil {
-				children = append(children, *child)
+			if child == nil {
+				// A child without a field guard (a nil condition is constant
+				// true) makes the whole disjunction unconstrained: guarding on
+				// the remaining children would prune rows that child accepts.
+				return nil
 			}
+			children = append(children, *child)
 		}
 		return &BloomExpression{
 			ExpressionType: BloomExpressionOr,
